@@ -98,6 +98,18 @@ CORPUS = [
     {"label": "default", "args": ["--debounce=1s"], "child_script": "exit_after=5000,on_term=exit:0",
      "events": [], "wait_ms": 500,
      "mode": 0, "restart": False, "signal": None, "stop": None, "postpone": False, "eff": 0, "life": 5000, "react": "exit:0"},
+    # changes arriving while the in-job --delay-run sleep of the first one is still in progress: several Start controls for one idle job,
+    # the later ones handled when the command is already running -- one run, nothing stopped
+    {"label": "default", "args": ["--postpone", "--delay-run=300ms"], "child_script": "exit_after=5000,on_term=exit:0",
+     "events": [{"k": "change", "at_ms": 100}, {"k": "change", "at_ms": 230}, {"k": "change", "at_ms": 500}], "wait_ms": 1500,
+     "mode": 0, "restart": False, "signal": None, "stop": None, "postpone": True, "eff": 0, "life": 5000, "react": "exit:0"},
+    # --map-signal is about OS signals received by watchexec: it does not touch the signal that signal mode sends to the command
+    {"label": "--signal=USR1", "args": ["--signal=USR1", "--map-signal=USR1:USR2"], "child_script": "exit_after=5000,on_usr1=ignore,on_usr2=ignore",
+     "events": [{"k": "change", "at_ms": 150}], "wait_ms": 400, "mode": 0, "restart": False, "signal": "USR1", "stop": None,
+     "postpone": False, "eff": 3, "life": 5000, "react": "ignore"},
+    {"label": "--signal=HUP", "args": ["--signal=HUP", "--map-signal=HUP:"], "child_script": "exit_after=5000,on_hup=ignore",
+     "events": [{"k": "change", "at_ms": 150}], "wait_ms": 400, "mode": 0, "restart": False, "signal": "HUP", "stop": None,
+     "postpone": False, "eff": 3, "life": 5000, "react": "ignore"},
     # do-nothing then idle start
     {"label": "default", "args": [], "child_script": "exit_after=300",
      "events": [{"k": "change", "at_ms": 100}, {"k": "change", "at_ms": 500}], "wait_ms": 700,
@@ -323,6 +335,19 @@ class C05(Prop):
             brief = {"id": case["id"], "args": case["args"], "child": case["child_script"], "events": [e["at_ms"] for e in case["events"]]}
             c.count("mode=" + case["label"])
             c.count("react=" + case["react"])
+            if any(a.startswith("--delay-run") for a in case["args"]):
+                # the in-job delay is outside the run-level model: judged directly -- in do-nothing mode the changes of an idle job that arrive
+                # during the delay lead to ONE run, which nothing stops or replaces
+                c.count("delay-run (monitor only)")
+                starts_ = [l for l in o["child_log"] if l["ev"] == "start"]
+                sigs_ = [l for l in o["child_log"] if l["ev"] == "signal"]
+                ends_ = [l for l in o["child_log"] if l["ev"] == "end"]
+                okd = len(starts_) == 1 and not sigs_ and not ends_
+                if not okd:
+                    c.failing.append({"case": brief, "impl": seq, "clause": "C05_do_nothing: while the command runs, further start requests of the same idle period "
+                                      "started it again or stopped it (more than one run, or a signal / an end)"})
+                c.validated += okd
+                continue
             busy_change = any(a.startswith("sig") or a == "chg" and i > 0 and "start" in want[:i] and want[:i].count("start") > want[:i].count("exit")
                               for i, a in enumerate(want))
             # with a zero stop timeout the kill follows the stop signal at once: the helper child cannot be relied on to log the signal
